@@ -59,6 +59,10 @@ def make_data(case, d):
     else:
         target = np.round(2.0 * cls + 0.05 * np.arange(n), 4)
     df = pd.DataFrame({"dim_0": rows, "target": target})
+    if case.get("extra_column"):
+        # a column that is NOT a feature of the task (explicit feature list)
+        extra = [pd.Series(np.round(rng.normal(size=6) * 5.0 + 20.0 * (i % 3), 4)) for i in range(n)]
+        df = pd.DataFrame({"aux": extra, "dim_0": rows, "target": target})
     if case["cv"]["kind"] == "presplit":
         k = max(2, n // 2)
         df.index = ["train"] * k + ["test"] * (n - k)
@@ -76,7 +80,7 @@ def make_cv(c):
 def make_parts(case):
     datasets = [RAMDataset(make_data(case, d), name="ds%d" % d) for d in range(case["n_datasets"])]
     Task = TSCTask if case["task"] == "tsc" else TSRTask
-    tasks = [Task(target="target") for _ in datasets]
+    tasks = [Task(target="target", features=["dim_0"]) if case.get("extra_column") else Task(target="target") for _ in datasets]
     Strat, Est = (TSCStrategy, doubles.CountingClassifier) if case["task"] == "tsc" else (TSRStrategy, doubles.CountingRegressor)
     strategies = [Strat(Est(tag="s%d" % j, shift=0.35 * j), name="strat%d" % j) for j in range(case["n_strategies"])]
     return tasks, datasets, strategies
@@ -323,7 +327,7 @@ def cases(draw, all_points=True):
         "n_strategies": draw(st.integers(1, 3)), "n_inst": draw(st.sampled_from([8, 8, 10, 12, 9, 11])), "seed": draw(st.integers(0, 10 ** 5)),
         "cv": cv, "store": store, "predict_on_train": draw(st.sampled_from([True, True, False])),
         "save_fitted": draw(st.booleans()) if store == "disk" else False,
-        "crash_points": "all",
+        "crash_points": "all", "extra_column": draw(st.booleans()),
     }
 
 
